@@ -68,7 +68,7 @@ CLAIMS = {
   ref="§6 C04"),
  "C05": dict(
   technique="runtime trace monitor against the delivered-record history model: departure instants (goodbye + 1 s, PTR expiry, verify timeout) computed from the history, every ServiceRemoved and every departure judged both ways",
-  text="The browser scenarios of C03 with TTLs 1 s..4500 s, verify timeouts {0, 1 ms, 1 s, 10 s, 1 h}, refresh queries answered or not, lossy deliveries, horizons 3 x largest TTL: each departure must produce exactly one ServiceRemoved on time (D2-D4) and each ServiceRemoved must be explained by a departure (D5).",
+  text="The browser scenarios of C03 with TTLs 1 s..4500 s, verify timeouts {0, 1, 400, 999, 1000, 1001, 1500, 2750 ms, 10 s, 1 h}, refresh queries answered or not, lossy deliveries, horizons 3 x largest TTL: each departure must produce exactly one ServiceRemoved on time (D2-D4) and each ServiceRemoved must be explained by a departure (D5).",
   note="A removal up to one second before a record's expiry is accepted (the crate treats the last second of a record as gone).",
   ref="§6 C05"),
  "C06": dict(
